@@ -36,7 +36,7 @@ def correspondence(ck, tier):
     for _ in range(80 if tier == "quick" else 800):
         n = int(rng.integers(5, 120))
         sym = bool(rng.integers(0, 2))
-        if sym and n % 2 == 0:
+        if sym and n % 2 == 0:          # (StepAnalytical refuses symmetric grids without a sample on the axis)
             n += 1
         rmax = float(rng.uniform(1, 50))
         r1, r2 = sorted(rng.uniform(0, rmax, size=2))
@@ -79,13 +79,14 @@ def oracle(ck, tier, deep):
     # ---- Step / Gaussian by quadrature, grid facts
     for _ in range(10 if not deep else 100):
         n = int(rng.integers(5, 80)) | 1
+        ng = n + int(rng.integers(0, 2))              # the Gaussian pair also lives on even symmetric grids (no sample on the axis)
         rmax = float(rng.uniform(2, 40))
         r1, r2 = sorted(rng.uniform(0.2, rmax, size=2))
         A0, sigma = float(rng.uniform(0.5, 5)), float(rng.uniform(0.5, rmax / 3))
         for sym in (True, False):
             s = quiet(analytical.StepAnalytical, n, rmax, r1, r2, A0=A0, symmetric=sym)
-            g = quiet(analytical.GaussianAnalytical, n, rmax, sigma=sigma, A0=A0, symmetric=sym)
-            ck.count(("S.closed", sym), suite="S.closed-forms")
+            g = quiet(analytical.GaussianAnalytical, ng, rmax, sigma=sigma, A0=A0, symmetric=sym)
+            ck.count(("S.closed", sym, ng % 2), suite="S.closed-forms")
             rep = dict(n=n, r_max=rmax, r1=r1, r2=r2, A0=A0, sigma=sigma, symmetric=sym)
             for obj, name in ((s, "StepAnalytical"), (g, "GaussianAnalytical")):
                 if abs(obj.dr - (obj.r[1] - obj.r[0])) > 1e-15 or (sym and np.abs(obj.r + obj.r[::-1]).max() > 1e-12) or \
@@ -96,9 +97,10 @@ def oracle(ck, tier, deep):
                 want = los(lambda q: A0 * ((q >= r1) & (q < r2)), x, r2, pts=[np.sqrt(r1 * r1 - x * x)] if x < r1 else None)
                 if abs(s.abel[i] - want) > 1e-9 * A0 * rmax:
                     ck.violation(dict(site="StepAnalytical", clause="abel-pair"), dict(rep, x=x), f"abel {s.abel[i]:.12g} vs quadrature {want:.12g}")
-                wantg = los(lambda q: A0 * np.exp(-q * q / sigma ** 2), x, x + 12 * sigma)
+                xg = abs(float(g.r[i]))
+                wantg = los(lambda q: A0 * np.exp(-q * q / sigma ** 2), xg, xg + 12 * sigma)
                 if abs(g.abel[i] - wantg) > 1e-9 * A0 * sigma:
-                    ck.violation(dict(site="GaussianAnalytical", clause="abel-pair"), dict(rep, x=x), f"abel {g.abel[i]:.12g} vs quadrature {wantg:.12g}")
+                    ck.violation(dict(site="GaussianAnalytical", clause="abel-pair"), dict(rep, x=xg, n=ng), f"abel {g.abel[i]:.12g} vs quadrature {wantg:.12g}")
     # ---- Polynomial wrappers
     for _ in range(6 if not deep else 60):
         n = int(rng.integers(11, 60)) | 1
@@ -108,7 +110,8 @@ def oracle(ck, tier, deep):
         r0, s_ = float(rng.uniform(0, rmax)), float(rng.uniform(0.5, 3))
         for sym in (True, False):
             ck.count(("S.polywrap", sym), suite="S.polynomial-wrappers")
-            p = quiet(analytical.Polynomial, n, rmax, rmin_, rmax_, c, r_0=r0, s=s_, symmetric=sym)
+            p = quiet(analytical.Polynomial, n, rmax, rmin_, rmax_, c, r_0=r0, s=s_, symmetric=sym,
+                      reduced=bool(rng.integers(0, 2)))          # (`reduced` only rescales internally: same function, same transform)
             pw = quiet(analytical.PiecewisePolynomial, n, rmax, [(rmin_, rmax_, c, r0, s_), (0.0, rmin_, [1.0, 0.1])], symmetric=sym)
             f = lambda q: np.polyval(c[::-1], (q - r0) / s_) * ((q >= rmin_) & (q < rmax_))
             f2 = lambda q: f(q) + (1.0 + 0.1 * q) * ((q >= 0) & (q < rmin_))
